@@ -146,7 +146,7 @@ def notify(sig, async_):
     return scenario
 
 
-def update_sequence(sig, async_, steps):
+def update_sequence(sig, async_, steps, repeats=False):
     """several updates in a row on one structure (any sequence of updates): at every one of them the item notifies iff
     its stored reading differs between the block before and the block after *that* update.  For a temperature the
     TempUnits byte sits next to it, so that updates may switch the unit between two updates of the reading."""
@@ -176,8 +176,13 @@ def update_sequence(sig, async_, steps):
             # the unit byte alone, the item alone, both, one byte of the item, a straddling pair
             # (the first update covers the whole item)
             ranges = [(5, 1), (6, 2), (5, 3), (7, 1), (4, 3)] if k else [(6, 2), (5, 3)]
-            offset, n = ranges[sx.choice(f"range{k}", len(ranges))]
-            patch = sx.bytes_(f"patch{k}", n)
+            if k == 2 and repeats and sx.choice("third_update_repeats_the_first", 2):
+                offset, n, patch = first           # the very same partial update again, after a different one
+            else:
+                offset, n = ranges[sx.choice(f"range{k}", len(ranges))]
+                patch = sx.bytes_(f"patch{k}", n)
+            if k == 0:
+                first = (offset, n, patch)
             before = st.status_block
             del calls[:]
             st.replace_status_block_segment(offset, patch)
@@ -390,7 +395,7 @@ def units(tier):
     temp = sorted((sg for sg in sigs if sg[0] == "GeckoTempStructAccessor"), key=str)[0]
     word = sorted((sg for sg in sigs if sg[0] == "GeckoWordStructAccessor"), key=str)[0]
     for async_ in (False, True):
-        yield Unit(f"update-sequence.{'async' if async_ else 'sync'}.word", update_sequence(word, async_, 3),
+        yield Unit(f"update-sequence.{'async' if async_ else 'sync'}.word", update_sequence(word, async_, 3, repeats=True),
                    max_paths=200000)
         for r1 in range(5):
             yield Unit(f"update-sequence.{'async' if async_ else 'sync'}.temp.{r1}", update_sequence(temp, async_, 3),
